@@ -127,13 +127,14 @@ static void check_congr(const RCP<const Basic> &e, const std::string &s, const R
                  + s + "] vs [" + s2 + "]";
 }
 
-static std::string run_str(const std::string &sx, bool roundtrip, std::string &oracle)
+// `sx` is the dump the object was rebuilt from, or empty for objects the wire format cannot carry (Piecewise)
+static std::string run_obj(const RCP<const Basic> &e, const std::string &sx, bool roundtrip, std::string &oracle)
 {
-    RCP<const Basic> e = vsexp::parse(sx);
     std::string s = e->__str__();
     // ---- (a) str_congr: other construction paths
     // a1: the same object rebuilt from the dump once more, and from the dump of the dump
-    check_congr(e, s, vsexp::parse(vsexp::dump(*e)), "rebuild", oracle);
+    if (!sx.empty())
+        check_congr(e, s, vsexp::parse(vsexp::dump(*e)), "rebuild", oracle);
     // a2: rebuilt through the public smart constructors with the arguments reversed
     try {
         vec_basic args = e->get_args();
@@ -175,6 +176,8 @@ static std::string run_str(const std::string &sx, bool roundtrip, std::string &o
     bool has_float = false;
     std::string rd = round_dump(sx, has_float);
     RCP<const Basic> e15 = has_float ? vsexp::parse(rd) : e;
+    if (sx.empty() && (has_type(*e, SYMENGINE_REAL_DOUBLE) || has_type(*e, SYMENGINE_COMPLEX_DOUBLE)))
+        return s; // no rounded copy can be built without a dump
     RCP<const Basic> p;
     try {
         p = parse(s);
@@ -217,8 +220,21 @@ static std::string run_str(const std::string &sx, bool roundtrip, std::string &o
     return s;
 }
 
+static std::string run_str(const std::string &sx, bool roundtrip, std::string &oracle)
+{
+    return run_obj(vsexp::parse(sx), sx, roundtrip, oracle);
+}
+
+static RCP<const Basic> piecewise_from_seed(uint64_t seed);
+
 std::string hx_run(const std::string &line, std::string &oracle)
 {
+    if (line.compare(0, 5, "rtpw ") == 0) {
+        // a Piecewise rebuilt from its seed (the wire format has no Piecewise): oracle only
+        RCP<const Basic> e = piecewise_from_seed(strtoull(line.c_str() + 5, nullptr, 10));
+        stat("piecewise_roundtrips");
+        return run_obj(e, "", true, oracle);
+    }
     if (line == "names") {
         std::vector<std::string> names = init_str_printer_names();
         std::vector<std::string> out;
@@ -653,23 +669,37 @@ void hx_gen(Rng &r, const std::string &tier)
     put("str", kronecker_delta(x, y), "function-kd-lc");
     put("str", add(kronecker_delta(x, add(y, one)), one), "function-kd-lc");
     put("str", levi_civita(vec_basic{x, y, z}), "function-kd-lc");
-    // --- outside the modelled printing fragment: oracle only
-    {
+    // --- outside the modelled printing fragment: oracle only (rebuilt from the seed inside the op line)
+    for (int i = 0; i < 12 * N; i++)
+        emit("rtpw " + std::to_string(r.next() % 1000000007ULL), "piecewise");
+}
+
+static RCP<const Basic> piecewise_from_seed(uint64_t seed)
+{
+    Rng r(seed);
+    RCP<const Basic> x = X(0), y = X(1), z = X(2);
+    if (seed % 7 == 0) {
         PiecewiseVec pv;
         pv.push_back({x, Lt(x, y)});
         pv.push_back({pow(y, integer(2)), Le(y, z)});
         pv.push_back({z, boolTrue});
-        put("rt", piecewise(std::move(pv)), "piecewise");
-        for (int i = 0; i < 10 * N; i++) {
-            PiecewiseVec v;
-            int n = 1 + (int)r.below(3);
-            for (int k = 0; k < n; k++)
-                v.push_back({rand_arith(r, 2, false), rand_rel(r, 1)});
-            v.push_back({rand_arith(r, 1, false), boolTrue});
-            try {
-                put("rt", piecewise(std::move(v)), "piecewise");
-            } catch (const std::exception &) {
-            }
+        return piecewise(std::move(pv));
+    }
+    for (int tries = 0; tries < 20; tries++) {
+        PiecewiseVec v;
+        int n = 1 + (int)r.below(3);
+        for (int k = 0; k < n; k++)
+            v.push_back({rand_arith(r, 2, false), rand_rel(r, 1)});
+        v.push_back({rand_arith(r, 1, false), boolTrue});
+        try {
+            RCP<const Basic> p = piecewise(std::move(v));
+            if (is_a<Piecewise>(*p) && !has_type(*p, SYMENGINE_NOT_A_NUMBER) && !has_type(*p, SYMENGINE_INFTY))
+                return r.coin(1, 3) ? add(mul(integer(2), p), x) : p;
+        } catch (const std::exception &) {
         }
     }
+    PiecewiseVec pv;
+    pv.push_back({x, Lt(x, y)});
+    pv.push_back({z, boolTrue});
+    return piecewise(std::move(pv));
 }
